@@ -338,6 +338,7 @@ func lcaseID(variant int, ops []lop) string {
 }
 
 func listOracle(c *oracleCtx) {
+	c05Identity(c)
 	c.rule = "operation sequences on a pool of live lists (4 initial pools incl. spare capacity and shared nested containers), every list compared with a sequence model after every step; a case is non-trivial when it contains a mutation or a derivation; distinct = distinct sequences"
 	if c.filter != nil {
 		for id := range c.filter {
@@ -605,6 +606,48 @@ func deriveReceivers() []treeGen {
 		{"O(a,b)", func() any { return NewObject("a", 1, "b", "x") }},
 		{"O(nested)", func() any { return NewObject("a", NewList(1), "b", NewObject("k", 2), "c", nil) }},
 		{"O(set-unset)", func() any { return NewObject("a", 1, "b", 2, "c", 3).Unset("c").Set("a", NewList()) }},
+	}
+}
+
+// Contains / IndexOf compare containers by identity: a distinct container with equal content is not found.
+func c05Identity(c *oracleCtx) {
+	type twin struct {
+		id   string
+		make func() (held, lookalike any)
+	}
+	twins := []twin{
+		{"empty-lists", func() (any, any) { return NewList(), NewList() }},
+		{"empty-objects", func() (any, any) { return NewObject(), NewObject() }},
+		{"lists", func() (any, any) { return NewList(1, "x"), NewList(1, "x") }},
+		{"objects", func() (any, any) { return NewObject("a", 1), NewObject("a", 1) }},
+		{"clone", func() (any, any) { l := NewList(NewObject("k", 1)); return l, l.Clone() }},
+		{"nested", func() (any, any) { return NewList(NewList()), NewList(NewList()) }},
+	}
+	for _, tw := range twins {
+		for pos := 0; pos < 3; pos++ {
+			tw, pos := tw, pos
+			c.check(fmt.Sprintf("ID:%s:%d", tw.id, pos), true, func() string {
+				held, look := tw.make()
+				elems := []any{1, "s", 2.5}
+				elems[pos] = held
+				l := NewList(elems...)
+				if !l.Contains(held) || l.IndexOf(held) != pos {
+					return "the held container is not found by Contains / IndexOf"
+				}
+				if l.Contains(look) || l.IndexOf(look) != -1 {
+					return fmt.Sprintf("Contains / IndexOf find a distinct container with equal content (IndexOf = %d)", l.IndexOf(look))
+				}
+				l.Add(look)
+				if l.IndexOf(look) != 3 || l.IndexOf(held) != pos {
+					return "IndexOf does not distinguish two equal-looking containers"
+				}
+				o := NewObject("h", held, "n", 1)
+				if !o.Contains(held) || o.Contains(look) || o.KeyOf(held) != "h" || !catch(func() { o.KeyOf(look) }) {
+					return "object Contains / KeyOf do not compare containers by identity"
+				}
+				return ""
+			})
+		}
 	}
 }
 
